@@ -19,6 +19,7 @@ let () =
     | "C08" -> C01.run_c08
     | "C12" -> C01.run_c12
     | "C20" -> C01.run_c20
+    | "C19" -> C19.run_case
     | _ -> prerr_endline ("unknown property " ^ prop); exit 2 in
   List.iter
     (fun l ->
